@@ -37,14 +37,16 @@ where
     type Item = io::Result<B>;
 
     fn next(&mut self) -> Option<Self::Item> {
-        self.buf.clear();
-        match self.inner.read_record(&mut self.buf) {
-            Ok(LineSize::Size(0)) => None,
-            Ok(LineSize::Skip) => self.next(),
-            Ok(_) => Some(self.buf.parse().map_err(
-                |e| Error::new(ErrorKind::Other, format!("{:?}: {}", e, &self.buf))
-            )),
-            Err(e) => Some(Err(e)),
+        loop {
+            self.buf.clear();
+            match self.inner.read_record(&mut self.buf) {
+                Ok(LineSize::Size(0)) => return None,
+                Ok(LineSize::Skip) => continue,
+                Ok(_) => return Some(self.buf.parse().map_err(
+                    |e| Error::new(ErrorKind::Other, format!("{:?}: {}", e, &self.buf))
+                )),
+                Err(e) => return Some(Err(e)),
+            }
         }
     }
 }
@@ -76,14 +78,16 @@ where
     type Item = io::Result<B>;
 
     fn next(&mut self) -> Option<Self::Item> {
-        self.buf.clear();
-        match self.inner.read_record(&mut self.buf) {
-            Ok(LineSize::Size(0)) => None,
-            Ok(LineSize::Skip) => self.next(),
-            Ok(_) => Some(self.buf.parse().map_err(
-                |e| Error::new(ErrorKind::Other, format!("{:?}: {}", e, &self.buf))
-            )),
-            Err(e) => Some(Err(e)),
+        loop {
+            self.buf.clear();
+            match self.inner.read_record(&mut self.buf) {
+                Ok(LineSize::Size(0)) => return None,
+                Ok(LineSize::Skip) => continue,
+                Ok(_) => return Some(self.buf.parse().map_err(
+                    |e| Error::new(ErrorKind::Other, format!("{:?}: {}", e, &self.buf))
+                )),
+                Err(e) => return Some(Err(e)),
+            }
         }
     }
 }
